@@ -1,7 +1,250 @@
-import LMV.Model.Dist
+/-
+  C11 — MEME-style score distribution agrees with the exact tail within its resolution.
+
+  Exact arithmetic (`Rat` instance of LMV.Model.Dist, the model the driver executes at `Float`).
+  Probabilities are finite sums over all words (LMV.Spec.Dist).  Hypotheses (`Hyp`): background
+  frequencies of the symbols non-negative with sum ≤ 1, every row has a column per symbol, table
+  length and finite entries fit `i32`; plus `0 < scale` (span of the finite entries ≤ CDF_RANGE).
+  Matrix entries may be −∞ anywhere (not only in the wildcard column), and the background may be a
+  sub-distribution — both are more than the property asks for.
+-/
+import LMV.Lemmas.DistPvalue
 
 namespace LMV.C11
+open LMV.Dist
 
-theorem placeholder : True := trivial
+variable {R : Nat} {syms : List Nat} {bg : List Rat} {m : List (List (Option Rat))} {d : Dist Rat}
+
+/-! ### (1) the density is the distribution of the integer score -/
+
+/-- `pdf[j] = P(D = j)` for the integer score `D` of a background-distributed word -/
+theorem pdf_eq_prob (hyp : Hyp R syms bg m) (h : build R syms bg m = some d) (hs : 0 < d.scale)
+    (j : Nat) : vget (pdfOf R syms bg d.data) j = prob syms bg m.length (dEq d.data j) :=
+  (build_facts hyp h hs).pdf j
+
+/-- `0 ≤ D ≤ R·M` (`D` is a natural number; `R = 1000`) -/
+theorem dscore_range (hyp : Hyp R syms bg m) (h : build R syms bg m = some d) (hs : 0 < d.scale)
+    {w : List Nat} (hw : w ∈ words syms m.length) {t : Nat} (ht : dscore d.data w = some t) :
+    t ≤ R * m.length := by
+  have := (build_facts hyp h hs).wordBound w hw t ht
+  rw [Nat.mul_comm]; exact this
+
+/-! ### (2) the survival function -/
+
+theorem sf_size (hyp : Hyp R syms bg m) (h : build R syms bg m = some d) (hs : 0 < d.scale) :
+    d.sf.size = m.length * R + 1 := (build_facts hyp h hs).size
+
+/-- `sf[j] = P(D ≥ j)` -/
+theorem sf_eq_tail (hyp : Hyp R syms bg m) (h : build R syms bg m = some d) (hs : 0 < d.scale)
+    {j : Nat} (hj : j < d.sf.size) :
+    vget d.sf j = prob syms bg m.length (dGe d.data (j : Int)) :=
+  (build_facts hyp h hs).sf j hj
+
+/-- `sf` is non-increasing -/
+theorem sf_antitone (hyp : Hyp R syms bg m) (h : build R syms bg m = some d) (hs : 0 < d.scale)
+    {i j : Nat} (hij : i ≤ j) (hj : j < d.sf.size) : vget d.sf j ≤ vget d.sf i := by
+  rw [sf_eq_tail hyp h hs hj, sf_eq_tail hyp h hs (lt_of_le_of_lt hij hj)]
+  exact prob_mono hyp.bg_nonneg _ _ _ (fun w _ => dGe_antitone d.data (by omega) w)
+
+/-- `sf` has values in `[0, 1]` -/
+theorem sf_mem_unit (hyp : Hyp R syms bg m) (h : build R syms bg m = some d) (hs : 0 < d.scale)
+    {j : Nat} (hj : j < d.sf.size) : 0 ≤ vget d.sf j ∧ vget d.sf j ≤ 1 := by
+  rw [sf_eq_tail hyp h hs hj]
+  exact ⟨prob_nonneg hyp.bg_nonneg _ _, prob_le_one hyp.bg_nonneg hyp.bg_sum _ _⟩
+
+/-! ### (3) discretisation error and the two-sided bound on the p-value -/
+
+/-- a word is skipped by the convolution iff its exact score is −∞ -/
+theorem skipped_iff (hyp : Hyp R syms bg m) (h : build R syms bg m = some d) (hs : 0 < d.scale)
+    {w : List Nat} (hw : w ∈ words syms m.length) : dscore d.data w = none ↔ rscore m w = none := by
+  have F := build_facts hyp h hs
+  obtain ⟨hwl, hwm⟩ := mem_words hw
+  rcases word_scores F.R_i32 hs m w F.cells hwl (fun row hrow a ha => hyp.cols row hrow a (hwm a ha)) with
+    ⟨hr, hd⟩ | ⟨v, t, hr, hd, _⟩
+  · rw [← F.data] at hd; simp [hr, hd]
+  · rw [← F.data] at hd; simp [hr, hd]
+
+/-- `|D(w) − scale·(S(w) − M·offset)| ≤ M/2` -/
+theorem disc_error (hyp : Hyp R syms bg m) (h : build R syms bg m = some d) (hs : 0 < d.scale)
+    {w : List Nat} (hw : w ∈ words syms m.length) {v : Rat} {t : Nat}
+    (hv : rscore m w = some v) (ht : dscore d.data w = some t) :
+    |(t : Rat) - d.scale * (v - m.length * d.offset)| ≤ (m.length : Rat) / 2 := by
+  have F := build_facts hyp h hs
+  obtain ⟨hwl, hwm⟩ := mem_words hw
+  rcases word_scores F.R_i32 hs m w F.cells hwl (fun row hrow a ha => hyp.cols row hrow a (hwm a ha)) with
+    ⟨hr, _⟩ | ⟨v', t', hr, hd, hu, hl, _⟩
+  · rw [hr] at hv; cases hv
+  · rw [← F.data] at hd
+    rw [hr] at hv; rw [hd] at ht; cases hv; cases ht
+    rw [abs_le]; constructor <;> linarith
+
+/-- `pvalue s = P(D ≥ round((s − M·offset)·scale))`, in every branch of `pvalue` (below the minimum
+    score, inside the table, past its end; `as i32` saturating or not) -/
+theorem pvalue_eq_tail (hyp : Hyp R syms bg m) (h : build R syms bg m = some d) (hs : 0 < d.scale)
+    (s : Rat) :
+    d.pvalue s =
+      prob syms bg m.length (dGe d.data (ratRound ((s - m.length * d.offset) * d.scale))) :=
+  pvalue_eq hyp (build_facts hyp h hs) s
+
+/-- Clause (3): with `dd` at least `(M+1)/2` discretisation steps (`(M+1)/2 ≤ dd·scale`),
+    `P(S ≥ s + dd) ≤ pvalue s ≤ P(S ≥ s − dd)`. -/
+theorem pvalue_bounds_of_steps (hyp : Hyp R syms bg m) (h : build R syms bg m = some d)
+    (hs : 0 < d.scale) (s dd : Rat) (hdd : ((m.length : Rat) + 1) / 2 ≤ dd * d.scale) :
+    prob syms bg m.length (sGe m (s + dd)) ≤ d.pvalue s ∧
+    d.pvalue s ≤ prob syms bg m.length (sGe m (s - dd)) := by
+  have F := build_facts hyp h hs
+  rw [pvalue_eq_tail hyp h hs]
+  have hru := ratRound_le ((s - m.length * d.offset) * d.scale)
+  have hrl := le_ratRound ((s - m.length * d.offset) * d.scale)
+  constructor
+  · apply prob_mono hyp.bg_nonneg
+    intro w hw hev
+    obtain ⟨hwl, hwm⟩ := mem_words hw
+    unfold sGe at hev
+    unfold dGe
+    rcases word_scores F.R_i32 hs m w F.cells hwl (fun row hrow a ha => hyp.cols row hrow a (hwm a ha)) with
+      ⟨hr, _⟩ | ⟨v, t, hr, hd, hu, hl, _⟩
+    · rw [hr] at hev; cases hev
+    · rw [← F.data] at hd
+      rw [hr] at hev
+      rw [hd]
+      have hsv : s + dd ≤ v := by simpa using hev
+      have : ((ratRound ((s - m.length * d.offset) * d.scale) : Int) : Rat) ≤ ((t : Int) : Rat) := by
+        push_cast
+        nlinarith [mul_le_mul_of_nonneg_right hsv hs.le]
+      have : ratRound ((s - m.length * d.offset) * d.scale) ≤ (t : Int) := by exact_mod_cast this
+      simpa using this
+  · apply prob_mono hyp.bg_nonneg
+    intro w hw hev
+    obtain ⟨hwl, hwm⟩ := mem_words hw
+    unfold dGe at hev
+    unfold sGe
+    rcases word_scores F.R_i32 hs m w F.cells hwl (fun row hrow a ha => hyp.cols row hrow a (hwm a ha)) with
+      ⟨_, hd⟩ | ⟨v, t, hr, hd, hu, hl, _⟩
+    · rw [← F.data] at hd; rw [hd] at hev; cases hev
+    · rw [← F.data] at hd
+      rw [hd] at hev
+      rw [hr]
+      have hkt : ratRound ((s - m.length * d.offset) * d.scale) ≤ (t : Int) := by simpa using hev
+      have hktR : ((ratRound ((s - m.length * d.offset) * d.scale) : Int) : Rat) ≤ (t : Rat) := by
+        exact_mod_cast hkt
+      have hmul : (s - v) * d.scale ≤ dd * d.scale := by nlinarith
+      have : s - v ≤ dd := le_of_mul_le_mul_right hmul hs
+      have : s - dd ≤ v := by linarith
+      simpa using this
+
+/-- Clause (3) with the property's `d = (M/2 + 1)` steps, `M/2` read as a rational … -/
+theorem pvalue_bounds (hyp : Hyp R syms bg m) (h : build R syms bg m = some d) (hs : 0 < d.scale)
+    (s : Rat) :
+    prob syms bg m.length (sGe m (s + ((m.length : Rat) / 2 + 1) / d.scale)) ≤ d.pvalue s ∧
+    d.pvalue s ≤ prob syms bg m.length (sGe m (s - ((m.length : Rat) / 2 + 1) / d.scale)) := by
+  apply pvalue_bounds_of_steps hyp h hs
+  rw [div_mul_cancel₀ _ hs.ne']
+  linarith
+
+/-- … and with `M/2` read as integer division (the tighter bound, the one the oracle checks) -/
+theorem pvalue_bounds_intdiv (hyp : Hyp R syms bg m) (h : build R syms bg m = some d)
+    (hs : 0 < d.scale) (s : Rat) :
+    prob syms bg m.length (sGe m (s + (((m.length / 2 + 1 : Nat) : Rat)) / d.scale)) ≤ d.pvalue s ∧
+    d.pvalue s ≤ prob syms bg m.length (sGe m (s - (((m.length / 2 + 1 : Nat) : Rat)) / d.scale)) := by
+  apply pvalue_bounds_of_steps hyp h hs
+  rw [div_mul_cancel₀ _ hs.ne']
+  have h2 : m.length ≤ 2 * (m.length / 2) + 1 := by omega
+  have h3 : ((m.length : Nat) : Rat) ≤ ((2 * (m.length / 2) + 1 : Nat) : Rat) := by exact_mod_cast h2
+  push_cast at h3 ⊢
+  linarith
+
+/-! ### (4) p-values are non-increasing in the score -/
+
+theorem pvalue_antitone (hyp : Hyp R syms bg m) (h : build R syms bg m = some d) (hs : 0 < d.scale)
+    {s1 s2 : Rat} (hle : s1 ≤ s2) : d.pvalue s2 ≤ d.pvalue s1 := by
+  rw [pvalue_eq_tail hyp h hs, pvalue_eq_tail hyp h hs]
+  apply prob_mono hyp.bg_nonneg
+  intro w _
+  apply dGe_antitone
+  apply ratRound_mono
+  exact mul_le_mul_of_nonneg_right (by linarith) hs.le
+
+/-- p-values lie in `[0, 1]` -/
+theorem pvalue_mem_unit (hyp : Hyp R syms bg m) (h : build R syms bg m = some d) (hs : 0 < d.scale)
+    (s : Rat) : 0 ≤ d.pvalue s ∧ d.pvalue s ≤ 1 := by
+  rw [pvalue_eq_tail hyp h hs]
+  exact ⟨prob_nonneg hyp.bg_nonneg _ _, prob_le_one hyp.bg_nonneg hyp.bg_sum _ _⟩
+
+/-! ### (5) p-value → score → p-value never yields a larger p-value -/
+
+/-- exact `unscale`/`scale` round trip -/
+theorem scaleScore_unscale (hyp : Hyp R syms bg m) (h : build R syms bg m = some d) (hs : 0 < d.scale)
+    {x : Int} (hx0 : 0 ≤ x) (hx1 : x ≤ d.sf.size) : d.scaleScore (d.unscale x) = x := by
+  have F := build_facts hyp h hs
+  unfold Dist.scaleScore Dist.unscale
+  simp only [roundI32_rat, ofInt_rat, ofIntF32_rat, toF32_rat, divF32_rat, addF32_rat]
+  have : ((x : Rat) / d.scale + ((Int.ofNat d.rows * d.offset : Int) : Rat)
+      - ((Int.ofNat d.rows * d.offset : Int) : Rat)) * d.scale = (x : Rat) := by
+    rw [add_sub_cancel_right, div_mul_cancel₀ _ hs.ne']
+  rw [this, ratRound_intCast]
+  have hsz := F.size
+  have hi := hyp.i32_size
+  apply clampI32_of_mem
+  · unfold I32_MIN; omega
+  · rw [hsz] at hx1; omega
+
+/-- Clause (5): for `p > 0` and any index `x` that `binary_search_by` may return,
+    `pvalue (score p) ≤ p` (for `p ≥ 1` the index is irrelevant: `score` returns the minimum). -/
+theorem pvalue_score_le (hyp : Hyp R syms bg m) (h : build R syms bg m = some d) (hs : 0 < d.scale)
+    {p : Rat} (hp : 0 < p) {x : Nat} (hadm : d.SearchAdmissible p x) :
+    d.pvalue (d.score p x) ≤ p := by
+  have F := build_facts hyp h hs
+  have hsz := F.size
+  have hmin0 := F.min_nonneg
+  have hminlt := F.min_lt
+  have hsfmin : vget d.sf d.minScore.toNat = prob syms bg m.length (dGe d.data d.minScore) := by
+    rw [F.sf d.minScore.toNat (by omega)]
+    have : ((d.minScore.toNat : Nat) : Int) = d.minScore := by omega
+    rw [this]
+  unfold Dist.score Dist.scoreBranch
+  simp only [leb_rat, one_rat, zero_rat, decide_eq_true_eq]
+  by_cases hp1 : 1 ≤ p
+  · -- `pvalue >= 1.0`: the minimum score
+    rw [if_pos hp1]
+    show d.pvalue (d.unscale d.minScore) ≤ p
+    unfold Dist.pvalue
+    rw [scaleScore_unscale hyp h hs hmin0 (by omega)]
+    rw [if_neg (lt_irrefl _), if_neg (by omega), if_neg (by omega), hsfmin]
+    exact le_trans (prob_le_one hyp.bg_nonneg hyp.bg_sum _ _) hp1
+  · rw [if_neg hp1, if_neg (by linarith)]
+    show d.pvalue (d.unscale (Int.ofNat x)) ≤ p
+    obtain ⟨hxle, hcase⟩ := hadm
+    unfold Dist.pvalue
+    rw [scaleScore_unscale hyp h hs (by simp) (by simpa using hxle)]
+    have hxnat : (Int.ofNat x).toNat = x := by simp
+    -- what the table says at `x`, from admissibility
+    have htab : x < d.sf.size → vget d.sf x ≤ p := by
+      intro hxlt
+      rcases hcase with ⟨_, heq⟩ | ⟨_, hlt⟩
+      · have : vget d.sf x = p := by simpa using heq
+        rw [this]
+      · have := hlt x (le_refl _) hxlt
+        have : vget d.sf x < p := by simpa using this
+        exact le_of_lt this
+    by_cases hb1 : Int.ofNat x < d.minScore
+    · -- below the minimum: the tail is the same as at `x`
+      rw [if_pos hb1, hsfmin]
+      have hxlt : x < d.sf.size := by
+        have : (x : Int) < d.minScore := hb1
+        omega
+      have := tail_below_min hyp F (le_of_lt hb1)
+      rw [← this]
+      have hx' := F.sf x hxlt
+      have hcast : ((x : Nat) : Int) = Int.ofNat x := rfl
+      rw [hcast] at hx'
+      rw [← hx']
+      exact htab hxlt
+    · rw [if_neg hb1, if_neg (by simp)]
+      by_cases hb2 : d.sf.size ≤ (Int.ofNat x).toNat
+      · rw [if_pos hb2]; exact le_of_lt hp
+      · rw [if_neg hb2, hxnat]
+        rw [hxnat] at hb2
+        exact htab (by omega)
 
 end LMV.C11
